@@ -23,13 +23,16 @@ ARRAY_ATTRS = (
     "v_cell_delimiters",
     "z_cell_delimiters",
 )
+BOOL_ATTRS = {"allow_delete", "allow_move", "allow_rename", "partially_hidden", "public", "visible", "modifiable"}
 SKIP_ATTRS = {"uid", "property_groups", "concatenated_attributes", "concatenated_object_ids", "property_group_ids", "entity_type", "on_file", "parent", "workspace"}
 
 
 def norm(v):
     """Value-normalisation: NaN -> None, numpy -> lists, uuid -> str, bytes -> hex."""
-    if v is None or isinstance(v, (bool, str)):
+    if v is None or isinstance(v, bool):
         return v
+    if isinstance(v, str):
+        return str(v)  # numpy.str_ -> str
     if isinstance(v, (int,)):
         return v
     if isinstance(v, float):
@@ -104,7 +107,10 @@ def entity_record(e, with_type=True):
     }
     for nm in attr_names(e):
         try:
-            rec[nm] = norm(getattr(e, nm))
+            val = getattr(e, nm)
+            if nm in BOOL_ATTRS and isinstance(val, (bool, int, np.integer, np.bool_)):
+                val = bool(val)  # stored as int8 0/1, served as such after loading
+            rec[nm] = norm(val)
         except Exception as err:  # pylint: disable=broad-except
             rec[nm] = f"!{type(err).__name__}"
     for nm in ARRAY_ATTRS:
